@@ -15,6 +15,7 @@ import IocProofs.Lemmas.M2StepInv
 import IocProofs.Lemmas.M2Examples
 import IocProofs.Lemmas.SemApp
 import IocProofs.Lemmas.ConcStart
+import IocProofs.Lemmas.SemIocRun
 namespace Ioc.C13
 open Ioc Ioc.M2 Ioc.App
 
@@ -208,5 +209,26 @@ example :
     StartSteps c (startInit stdHeap 5) s ∧ startDone s 2 ∧ s.applied 2 = [.comps 2, .other, .other, .other] ∧
       (List.range 4).map (runsOf c s) = [1, 1, 1, 1] ∧ (List.range 4).map (foreignOf c s) = [0, 0, 0, 0] :=
   ⟨startRendezvous_sound _ _, ⟨⟨5 + 2, 4, 4⟩, by decide, by decide⟩, by decide, by decide, by decide⟩
+
+/-! ### the REGENERATED package-level entry points (run.go)
+
+    `ioc.Register` only remembers a `SetComponents` option; `ioc.Run` starts ONE App with the options of the call first and the
+    remembered ones after them — a registry (factory, configure) chosen by the call is in place before the registered
+    components, runners and closers among them, are added to it. -/
+section entry
+open Ioc.Go Ioc.Sem
+
+theorem C13_code_ioc_Register (flag : String) (rf : Bool) (cs : Go.Val) (w : IRW) :
+    run (iocPrims flag rf) Progs.ioc_Register [cs] w =
+      some (.tuple [], { w with reg := w.reg ++ [.tuple [.str "SetComponents", cs]] }) :=
+  iocRegister_sem flag rf cs w
+
+theorem C13_code_ioc_Run (flag : String) (rf : Bool) (ops : List Go.Val) (w : IRW) :
+    run (iocPrims flag rf) Progs.ioc_Run [.list ops] w =
+      some (if rf then .tuple [.nil, .str "error"] else .tuple [.ref 0 1, .nil],
+            { w with started := w.started ++ [ops ++ w.reg] }) :=
+  iocRun_sem flag rf ops w
+
+end entry
 
 end Ioc.C13
